@@ -92,6 +92,15 @@ var c04Inputs = []string{
 	"func g(x) { x + 1 }; func f(x) { g(x) }; println(f(1)); func sw() { g(0); g = func(x) { x * 100 } }",
 	"sw(); println(f(1))",
 	"func two2() { verif_counter() }; func one1() { two2() }; func zero0() { one1() }; println(zero0(), zero0(), zero0())",
+	// a self-recursive function that reads a mutable global before recursing
+	"func rg(n) { if n == 0 { 0 } else { gl + rg(n - 1) } }; println(catch(rg(3)))", "println(catch(rg(2)))", "println(catch(rg(3)), catch(rg(1)))",
+	// a stateful extension that fails (caught inside a user function), then succeeds after the state changed
+	"paint = func() { catch(image.set(\"im4\", 0, 0, [1, 2, 3])).err }; println(paint())", "image.new(\"im4\", 2, 2); println(paint())", "println(catch(paint()))",
+	// a printing variadic function called with an outer one-element array from inside a function, then with the flat arguments
+	"one = [5]; func tv(a, ..) { println(\"tv\", a, ..); a }; func callit() { tv(1, one) }; println(callit()); println(tv(1, 5)); println(tv(1, 5))",
+	"func tv2(..) { println(\"tv2\", ..); len(..) }; two = [[7]]; func c2() { tv2(two) }; println(c2(), tv2([7]), tv2([7]), tv2(7), tv2(7))",
+	// more than 64 KiB printed by one cached call
+	"func big3(ch) { println(ch * 70000); 1 }; println(big3(\"a\") + big3(\"a\") + big3(\"b\"))",
 	// functions with the same text and different names whose result depends on which one it is
 	"func sa() { self }; func sb() { self }; println(sa()); println(sb()); println(sa())",
 	"func na(x) { println(\"in\", self); x }; func nb(x) { println(\"in\", self); x }; println(na(1), nb(1), na(1))",
